@@ -261,11 +261,28 @@ def noFltO : List (String × J) → Bool
   | (_, v) :: xs => noFlt v && noFltO xs
 end
 
-/-- `s.split(ns)[1]` when `ns in s` -/
+def isPrefixL : List Char → List Char → Bool
+  | [], _ => true
+  | _ :: _, [] => false
+  | a :: as, b :: bs => a == b && isPrefixL as bs
+
+/-- first occurrence of `ns` in `s` (scanning from the left): the text before it and the text after it -/
+def splitFirstL (ns : List Char) : List Char → Option (List Char × List Char)
+  | [] => if ns.isEmpty then some ([], []) else none
+  | c :: cs =>
+    if isPrefixL ns (c :: cs) then some ([], (c :: cs).drop ns.length)
+    else match splitFirstL ns cs with
+      | some (before, after) => some (c :: before, after)
+      | none => none
+
+/-- `s.split(ns)[1]` when `ns in s` (the text between the first and the second occurrence) -/
 def stripNs (ns s : String) : String :=
-  match s.splitOn ns with
-  | _ :: b :: _ => b
-  | _ => s
+  match splitFirstL ns.toList s.toList with
+  | none => s
+  | some (_, after) =>
+    match splitFirstL ns.toList after with
+    | none => String.ofList after
+    | some (mid, _) => String.ofList mid
 
 mutual
 /-- `remove_namespace_context` -/
@@ -302,7 +319,7 @@ def idx (l : List J) (i : Nat) : PyR J :=
 def pyIn (k : String) : J → Bool
   | .obj l => Dict.has l k
   | .arr l => l.any (fun e => e == J.str k)
-  | .str s => (s.splitOn k).length > 1
+  | .str s => (splitFirstL k.toList s.toList).isSome
   | _ => false
 
 /-- `for x in d[key]: f(x)` with every x a dict, written back in place -/
@@ -362,10 +379,12 @@ def onParams (elem : Dict) (f : Dict → PyR Dict) : PyR Dict := do
   let p ← asObj (← elem.get "params")
   return elem.set "params" (.obj (← f p))
 
-/-- `convert_degree` -/
+/-- apply `f` to the params of a ROADM element that has params -/
+def onRoadmParams (f : Dict → PyR Dict) (elem : Dict) : PyR Dict := do
+  if ← isRoadmWithParams elem then onParams elem f else pure elem
+
 def convertDegree (doc : Dict) : PyR Dict :=
-  forEachIn doc "elements" (fun elem => do
-    if ← isRoadmWithParams elem then onParams elem degreeToYang else pure elem)
+  forEachIn doc "elements" (onRoadmParams degreeToYang)
 
 /-- `elem[PARAMS_KEY][eq_type][degree_uid] = target[eq_type]` (creating the dict when needed) -/
 def setDegree (params : Dict) (kind deg : String) (v : J) : PyR Dict :=
@@ -408,8 +427,7 @@ def degreeToLegacy (params : Dict) : PyR Dict := do
 
 /-- `convert_back_degree` -/
 def convertBackDegree (doc : Dict) : PyR Dict :=
-  forEachIn doc "elements" (fun elem => do
-    if ← isRoadmWithParams elem then onParams elem degreeToLegacy else pure elem)
+  forEachIn doc "elements" (onRoadmParams degreeToLegacy)
 
 /-- body of `convert_design_band` -/
 def designBandToYang (params : Dict) : PyR Dict := do
@@ -425,8 +443,7 @@ def designBandToYang (params : Dict) : PyR Dict := do
     | _ => attributeError "items"
 
 def convertDesignBand (doc : Dict) : PyR Dict :=
-  forEachIn doc "elements" (fun elem => do
-    if ← isRoadmWithParams elem then onParams elem designBandToYang else pure elem)
+  forEachIn doc "elements" (onRoadmParams designBandToYang)
 
 /-- `design_bands[target[DEGREE_KEY]] = target['design_bands']` for one target -/
 def bandOf (tj : J) : PyR (String × J) := do
@@ -453,8 +470,7 @@ def designBandToLegacy (params : Dict) : PyR Dict := do
     if bands.isEmpty then return p else return p.set "per_degree_design_bands" (.obj bands)
 
 def convertBackDesignBand (doc : Dict) : PyR Dict :=
-  forEachIn doc "elements" (fun elem => do
-    if ← isRoadmWithParams elem then onParams elem designBandToLegacy else pure elem)
+  forEachIn doc "elements" (onRoadmParams designBandToLegacy)
 
 /-- does `elem` have a dict `params`? (`PARAMS_KEY in elem`) -/
 def withParams (elem : Dict) (f : Dict → PyR Dict) : PyR Dict :=
@@ -567,24 +583,28 @@ def reorderRamanPumps (doc : Dict) : PyR Dict :=
       else return elem
     | none => return elem)
 
-/-- `remove_null_region_city` -/
+/-- `if loc[name] is None: loc[name] = ""` -/
+def fixNullName (l : Dict) (name : String) : Dict :=
+  match l.get? name with
+  | some .null => l.set name (.str "")
+  | _ => l
+
+/-- `remove_null_region_city` for one element -/
+def fixRegionCity (elem : Dict) : PyR Dict := do
+  match elem.get? "metadata" with
+  | some mj =>
+    if pyIn "location" mj then
+      let m ← asObj mj
+      let locj ← m.get "location"
+      if !(pyIn "city" locj || pyIn "region" locj) then return elem
+      let loc ← asObj locj
+      let loc := fixNullName (fixNullName loc "city") "region"
+      return elem.set "metadata" (.obj (m.set "location" (.obj loc)))
+    else return elem
+  | none => return elem
+
 def removeNullRegionCity (doc : Dict) : PyR Dict :=
-  forEachIn doc "elements" (fun elem => do
-    match elem.get? "metadata" with
-    | some mj =>
-      if pyIn "location" mj then
-        let m ← asObj mj
-        let locj ← m.get "location"
-        if !(pyIn "city" locj || pyIn "region" locj) then return elem
-        let loc ← asObj locj
-        let fix (l : Dict) (name : String) : Dict :=
-          match l.get? name with
-          | some .null => l.set name (.str "")
-          | _ => l
-        let loc := fix (fix loc "city") "region"
-        return elem.set "metadata" (.obj (m.set "location" (.obj loc)))
-      else return elem
-    | none => return elem)
+  forEachIn doc "elements" fixRegionCity
 
 /-! ### equipment -/
 
@@ -629,8 +649,10 @@ def ramanEffAcceptCoef (fe : Dict) : PyR Dict :=
   | none => pure fe
 
 /-- `convert_raman_efficiency` -/
+def ramanEffEntryToYang (fe : Dict) : PyR Dict := do ramanEffToYang (← ramanEffAcceptCoef fe)
+
 def convertRamanEfficiency (doc : Dict) : PyR Dict :=
-  forEachIfPresent doc "RamanFiber" (fun fe => do ramanEffToYang (← ramanEffAcceptCoef fe))
+  forEachIfPresent doc "RamanFiber" ramanEffEntryToYang
 
 /-- `[c[k] for c in l if k in c]` -/
 def columnIf (k : String) (l : List J) : PyR (List J) := do
@@ -771,15 +793,17 @@ def addMissingDefaultTypeVariety (doc : Dict) : PyR Dict :=
 
 /-! ### services -/
 
-/-- `reorder_route_objects` -/
+/-- `reorder_route_objects` for one request -/
+def reorderRouteReq (req : Dict) : PyR Dict := do
+  match req.get? "explicit-route-objects" with
+  | none => return req
+  | some ej =>
+    let e ← asObj ej
+    let l ← reorderKeys "index" (← e.get "route-object-include-exclude")
+    return req.set "explicit-route-objects" (.obj (e.set "route-object-include-exclude" l))
+
 def reorderRouteObjects (doc : Dict) : PyR Dict :=
-  forEachIn doc "path-request" (fun req => do
-    match req.get? "explicit-route-objects" with
-    | none => return req
-    | some ej =>
-      let e ← asObj ej
-      let l ← reorderKeys "index" (← e.get "route-object-include-exclude")
-      return req.set "explicit-route-objects" (.obj (e.set "route-object-include-exclude" l)))
+  forEachIn doc "path-request" reorderRouteReq
 
 /-- `slot.get(k) is None → slot.pop(k, None)` -/
 def dropIfNone (d : Dict) (k : String) : Dict :=
@@ -818,13 +842,15 @@ def cleanTeBandwidth (te : Dict) : PyR Dict := do
         else pure (te.set "effective-freq-slot" (.arr l'))
   return dropIfNone (dropIfNone (dropIfNone te "max-nb-of-channel") "trx_mode") "output-power"
 
-/-- `remove_union_that_fail` -/
+/-- `remove_union_that_fail` for one request -/
+def cleanReq (req : Dict) : PyR Dict := do
+  let pc ← asObj (← req.get "path-constraints")
+  let te ← asObj (← pc.get "te-bandwidth")
+  let te' ← cleanTeBandwidth te
+  return req.set "path-constraints" (.obj (pc.set "te-bandwidth" (.obj te')))
+
 def removeUnionThatFail (doc : Dict) : PyR Dict :=
-  forEachIn doc "path-request" (fun req => do
-    let pc ← asObj (← req.get "path-constraints")
-    let te ← asObj (← pc.get "te-bandwidth")
-    let te' ← cleanTeBandwidth te
-    return req.set "path-constraints" (.obj (pc.set "te-bandwidth" (.obj te'))))
+  forEachIn doc "path-request" cleanReq
 
 /-! ### dispatch -/
 
@@ -912,23 +938,24 @@ def legacyToYangOld := legacyToYangWith convertRamanEfficiencyOld
 
 /-- the structural part of `yang_to_legacy` (after `convert_empty_to_none` and `convert_back`);
     `backRange` is `convertBackDeltaPowerRange` -/
+def topoToLegacy (d : Dict) : PyR J := do
+  let d ← convertBackDegree d
+  let d ← convertBackDesignBand d
+  let d ← convertBackLossCoefList d
+  let d ← convertBackRamanCoef d
+  return removeNamespace "gnpy-network-topology:" (.obj d)
+
+def eqptToLegacy (backRange : Dict → PyR Dict) (d : Dict) : PyR J := do
+  let d ← backRange d
+  let d ← convertBackRamanEfficiency d
+  let d ← convertBackNfCoef d
+  return removeNamespace "gnpy-eqpt-config:" (.obj d)
+
 def toLegacyStruct (backRange : Dict → PyR Dict) (d : Dict) : PyR J := do
-  let topo (d : Dict) : PyR J := do
-    let d ← convertBackDegree d
-    let d ← convertBackDesignBand d
-    let d ← convertBackLossCoefList d
-    let d ← convertBackRamanCoef d
-    return removeNamespace "gnpy-network-topology:" (.obj d)
-  let eqpt (d : Dict) : PyR Dict := do
-    let d ← backRange d
-    let d ← convertBackRamanEfficiency d
-    convertBackNfCoef d
-  if d.has "elements" then topo d
-  else if d.has TOPO then topo (← asObj (← d.get TOPO))
-  else if hasAny d eqptTypes then
-    return removeNamespace "gnpy-eqpt-config:" (.obj (← eqpt d))
-  else if d.has EQPT then
-    return removeNamespace "gnpy-eqpt-config:" (.obj (← eqpt (← asObj (← d.get EQPT))))
+  if d.has "elements" then topoToLegacy d
+  else if d.has TOPO then topoToLegacy (← asObj (← d.get TOPO))
+  else if hasAny d eqptTypes then eqptToLegacy backRange d
+  else if d.has EQPT then eqptToLegacy backRange (← asObj (← d.get EQPT))
   else if hasAny d edfaConfigKeys then
     return .obj (← convertBackNfFitCoef d)
   else if d.has EDFACFG then
@@ -952,6 +979,213 @@ def yangToLegacyWith (reff : Dict → PyR Dict) (backRange : Dict → PyR Dict)
 def yangToLegacy := yangToLegacyWith convertRamanEfficiency convertBackDeltaPowerRange
 /-- the converter before the repairs of F6 and F7 -/
 def yangToLegacyOld := yangToLegacyWith convertRamanEfficiencyOld convertBackDeltaPowerRangeOld
+
+/-! ### the YANG normal form (what `legacy_to_yang` produces; decidable) -/
+
+/-- ROADM/fibre params in YANG form: none of the legacy-only spellings is left -/
+def paramsYangNormal (p : Dict) : Bool :=
+  !p.has "per_degree_pch_out_db" && !p.has "per_degree_psd_out_mWperGHz" &&
+  !p.has "per_degree_psd_out_mWperSlotWidth" && !p.has "per_degree_design_bands" &&
+  (match p.get? "loss_coef" with
+   | some (.obj _) => false
+   | _ => true)
+
+/-- the location of an element holds no bare null city/region -/
+def metaYangNormal (e : Dict) : Bool :=
+  match Dict.get? e "metadata" with
+  | none => true
+  | some (.obj m) =>
+    (match Dict.get? m "location" with
+     | none => true
+     | some (.obj loc) => Dict.get? loc "city" != some .null && Dict.get? loc "region" != some .null
+     | some _ => false)
+  | some _ => false
+
+def elemYangNormal : J → Bool
+  | .obj e =>
+    Dict.has e "type" && metaYangNormal e &&
+    (match Dict.get? e "params" with
+     | none => true
+     | some (.obj p) => paramsYangNormal p
+     | some _ => false)
+  | _ => false
+
+def topoYangNormal (inner : Dict) : Bool :=
+  match inner.get? "elements" with
+  | some (.arr l) => l.all elemYangNormal
+  | _ => false
+
+def ramanFiberYangNormal : J → Bool
+  | .obj fe =>
+    (match Dict.get? fe "raman_coefficient" with
+     | none => true
+     | some rcj => Dict.has fe "raman_efficiency" || !pyIn "g0" rcj) &&
+    (match Dict.get? fe "raman_efficiency" with
+     | none => true
+     | some rej => !pyIn "cr" rej && !pyIn "g0" rej)
+  | _ => false
+
+def hasKeyEntry (k : String) : J → Bool
+  | .obj e => Dict.has e k
+  | _ => false
+
+def edfaYangNormal : J → Bool
+  | .obj e =>
+    (match Dict.get? e "nf_coef" with
+     | none => true
+     | some (.arr (first :: _)) => first.isObj
+     | some _ => false)
+  | _ => false
+
+/-- `key` absent, or a list all of whose entries satisfy `ok` -/
+def listAll (d : Dict) (key : String) (ok : J → Bool) : Bool :=
+  match d.get? key with
+  | none => true
+  | some (.arr l) => l.all ok
+  | some _ => false
+
+def eqptYangNormal (inner : Dict) : Bool :=
+  listAll inner "RamanFiber" ramanFiberYangNormal &&
+  listAll inner "Span" (hasKeyEntry "delta_power_range_dict_db") &&
+  listAll inner "SI" (hasKeyEntry "power_range_dict_db") &&
+  listAll inner "Edfa" edfaYangNormal &&
+  listAll inner "Roadm" (hasKeyEntry "type_variety")
+
+/-- a list entry whose YANG key `key` is its first member (or that has no such member) -/
+def keyFirst (key : String) : J → Bool
+  | .obj ((k, v) :: rest) => if k == key then v != .null && !Dict.has rest key else !Dict.has ((k, v) :: rest) key
+  | .obj [] => true
+  | _ => false
+
+def slotYangNormal : J → Bool
+  | .obj s => !List.isEmpty s && Dict.get? s "N" != some .null && Dict.get? s "M" != some .null
+  | _ => false
+
+def teYangNormal (te : Dict) : Bool :=
+  (match Dict.get? te "effective-freq-slot" with
+   | none => true
+   | some (.arr (x :: xs)) => (x :: xs).all slotYangNormal
+   | some _ => false) &&
+  Dict.get? te "max-nb-of-channel" != some .null && Dict.get? te "trx_mode" != some .null &&
+  Dict.get? te "output-power" != some .null
+
+def reqYangNormal : J → Bool
+  | .obj req =>
+    (match Dict.get? req "explicit-route-objects" with
+     | none => true
+     | some (.obj e) =>
+       (match Dict.get? e "route-object-include-exclude" with
+        | some (.arr l) => l.all (keyFirst "index")
+        | _ => false)
+     | some _ => false) &&
+    (match Dict.get? req "path-constraints" with
+     | some (.obj pc) =>
+       (match Dict.get? pc "te-bandwidth" with
+        | some (.obj te) => teYangNormal te
+        | _ => false)
+     | _ => false)
+  | _ => false
+
+def servYangNormal (inner : Dict) : Bool :=
+  match inner.get? "path-request" with
+  | some (.arr l) => l.all reqYangNormal
+  | _ => false
+
+/-- **the YANG normal form of a document of the five kinds**: one namespaced top-level member, the
+    structures in their YANG spelling.  `legacy_to_yang` is the identity on it (theorem
+    `legacyToYang_fixpoint`), and the harness checks on every run that the model's `legacy_to_yang`
+    output of every accepted document is of this form. -/
+def yangNormal : J → Bool
+  | .obj [(k, v)] =>
+    if k == TOPO then (match v with | .obj inner => topoYangNormal inner | _ => false)
+    else if k == EQPT then (match v with | .obj inner => eqptYangNormal inner | _ => false)
+    else if k == SERV then (match v with | .obj inner => servYangNormal inner | _ => false)
+    else k == SPEC || k == SIMP
+  | _ => false
+
+/-! ### the legacy normal form (what `yang_to_legacy` produces; decidable) -/
+
+def paramsLegacyNormal (p : Dict) : Bool :=
+  !p.has "per_degree_power_targets" && !p.has "per_degree_design_bands_targets" &&
+  !p.has "loss_coef_per_frequency" &&
+  (match p.get? "raman_coefficient" with
+   | none => true
+   | some rcj => !pyIn "g0_per_frequency" rcj)
+
+def elemLegacyNormal : J → Bool
+  | .obj e =>
+    Dict.has e "type" &&
+    (match Dict.get? e "params" with
+     | none => true
+     | some (.obj p) => paramsLegacyNormal p
+     | some _ => false)
+  | _ => false
+
+def topoLegacyNormal (d : Dict) : Bool :=
+  match d.get? "elements" with
+  | some (.arr l) => l.all elemLegacyNormal
+  | _ => false
+
+def lacksKeyEntry (k : String) : J → Bool
+  | .obj e => !Dict.has e k
+  | _ => false
+
+def ramanFiberLegacyNormal : J → Bool
+  | .obj fe =>
+    (match Dict.get? fe "raman_efficiency" with
+     | some (.arr _) => false
+     | _ => true)
+  | _ => false
+
+def edfaLegacyNormal : J → Bool
+  | .obj e =>
+    (match Dict.get? e "nf_coef" with
+     | none => true
+     | some (.arr (first :: _)) => !first.isObj
+     | some _ => false)
+  | _ => false
+
+def eqptLegacyNormal (d : Dict) : Bool :=
+  listAll d "Span" (lacksKeyEntry "delta_power_range_dict_db") &&
+  listAll d "SI" (lacksKeyEntry "power_range_dict_db") &&
+  listAll d "RamanFiber" ramanFiberLegacyNormal &&
+  listAll d "Edfa" edfaLegacyNormal
+
+/-- no string value carries the namespace prefix (the test is the converter's own last step) -/
+def nsFree (ns : String) (j : J) : Bool := removeNamespace ns j == j
+
+/-- **the legacy normal form of a document of the five kinds** -/
+def legacyNormal : J → Bool
+  | .obj d =>
+    if Dict.has d "elements" then topoLegacyNormal d && nsFree "gnpy-network-topology:" (.obj d)
+    else if Dict.has d TOPO then false
+    else if hasAny d eqptTypes then eqptLegacyNormal d && nsFree "gnpy-eqpt-config:" (.obj d)
+    else !Dict.has d EQPT && !hasAny d edfaConfigKeys && !Dict.has d EDFACFG && !Dict.has d SERV && !Dict.has d SIMP &&
+      !Dict.has d SPEC && !Dict.has d RESP && !Dict.has d API &&
+      hasAny d (simParamsKeys ++ ["spectrum", "response", "path-request"])
+  | _ => false
+
+/-- `convert_back` leaves the tree as it is (numbers are numbers already) -/
+def backStable (j : J) : Bool :=
+  match convertBack none j with
+  | .ok r => r == j
+  | .error _ => false
+
+def isOk {α : Type} : PyR α → Bool
+  | .ok _ => true
+  | .error _ => false
+
+/-- **well-formed legacy document as `yang_to_legacy` returns it**: legacy-normal, no `[null]`,
+    numbers already numbers, and `legacy_to_yang` (the validation step of `yang_to_legacy`) accepts it -/
+def wfLegacyDoc (reprs : List (Nat × String)) (l : J) : Bool :=
+  legacyNormal l && noBoxedNull l && backStable l && isOk (legacyToYang reprs l)
+
+/-- **well-formed legacy (or YANG) document**: `legacy_to_yang` succeeds on it and the result is a
+    YANG-normal tree without bare null and without binary float -/
+def wfDoc (reprs : List (Nat × String)) (doc : J) : Bool :=
+  match legacyToYang reprs doc with
+  | .ok y => yangNormal y && noBareNull y && noFlt y
+  | .error _ => false
 
 /-! ### the Raman coefficient a library fibre entry ends up with (`json_io.Fiber.__init__`) -/
 
